@@ -306,7 +306,7 @@ fn search_stats(st: &mut CaseStats, start: usize, want: Option<usize>, n: usize,
 }
 
 pub fn run_case(case: &Case, focus: Focus) -> CaseResult {
-    match case.alg % 15 {
+    match case.alg % 19 {
         0 => run::<AMin>(case, focus),
         1 => run::<AMax>(case, focus),
         2 => run::<ASum>(case, focus),
@@ -321,7 +321,11 @@ pub fn run_case(case: &Case, focus: Focus) -> CaseResult {
         11 => run::<AHash>(case, focus),
         12 => run::<AAssignSum>(case, focus),
         13 => run::<AAssignMin>(case, focus),
-        _ => run::<AFlip>(case, focus),
+        14 => run::<AFlip>(case, focus),
+        15 => run::<AMinExt>(case, focus),
+        16 => run::<AMaxExt>(case, focus),
+        17 => run::<AMinF>(case, focus),
+        _ => run::<AMaxF>(case, focus),
     }
 }
 
@@ -364,7 +368,7 @@ pub fn ctor_large(max_log: u32) -> impl Strategy<Value = Ctor> {
 pub fn case_large(alg: Option<u8>, max_log: u32, max_ops: usize) -> impl Strategy<Value = Case> {
     let a = match alg {
         Some(a) => Just(a).boxed(),
-        None => (0u8..15).boxed(),
+        None => (0u8..19).boxed(),
     };
     let small_op = prop_oneof![
         20 => (idx(), raw_val()).prop_map(|(i, v)| Op::Set { i, v }),
@@ -407,7 +411,7 @@ pub fn op() -> impl Strategy<Value = Op> {
 pub fn case(alg: Option<u8>, max_ops: usize) -> impl Strategy<Value = Case> {
     let a = match alg {
         Some(a) => Just(a).boxed(),
-        None => (0u8..15).boxed(),
+        None => (0u8..19).boxed(),
     };
     (a, prop::bool::weighted(0.4), ctor(), prop::collection::vec(op(), 0..max_ops))
         .prop_map(|(alg, nonneg, init, ops)| Case { alg, nonneg, init, ops })
@@ -499,7 +503,7 @@ pub fn decode(data: &[u8]) -> Option<Case> {
         }
     };
     let h = take(3)?;
-    let alg = h[0] % 15;
+    let alg = h[0] % 19;
     let nonneg = h[1] & 1 == 1;
     let n = 1 + (h[2] as usize % 40);
     let ctor_kind = h[1] >> 6;
